@@ -6,6 +6,7 @@
   vectors; `Props/C06|C08|C16.lean` then reason about plain lists.
 -/
 import BumpProof.Coll.Vecs
+import BumpProof.Coll.Iter
 
 namespace Coll
 
@@ -137,5 +138,93 @@ def extendWithIns (room : Bool) (n : Nat) (value : Id) (o : List Outcome) : List
 
 def resizeIns (room : Bool) (xs : List Id) (newLen : Nat) (value : Id) (o : List Outcome) : List Id :=
   if newLen > xs.length then extendWithIns room (newLen - xs.length) value o else [value]
+
+/-! ## drain / into_iter / extract_if / map_in_place / append -/
+
+/-- a script of `next` / `next_back` calls on the un-yielded elements `u`: what each call returned,
+    and what is left -/
+def pullsSpec : List Id → List Pull → List (Option Id) × List Id
+  | u, [] => ([], u)
+  | u, .front :: ps =>
+    match u with
+    | [] => let r := pullsSpec [] ps; (none :: r.1, r.2)
+    | x :: u' => let r := pullsSpec u' ps; (some x :: r.1, r.2)
+  | u, .back :: ps =>
+    match u.getLast? with
+    | none => let r := pullsSpec u ps; (none :: r.1, r.2)
+    | some x => let r := pullsSpec u.dropLast ps; (some x :: r.1, r.2)
+
+/-- ids among the results of a script -/
+def yielded (rs : List (Option Id)) : List Id := rs.filterMap id
+
+/-- `drain(start..end)`, pulls, then drop / `keep_rest` -/
+def drainSpec (bombs : List Id) (xs : List Id) (start end_ : Nat) (script : List Pull) (fin : Fin) :
+    SpecOut (List (Option Id)) :=
+  if start > end_ ∨ end_ > xs.length then { final := xs, exit := .panic false, rest := [] }
+  else
+    let head := xs.take start
+    let range := (xs.take end_).drop start
+    let tail := xs.drop end_
+    let r := pullsSpec range script
+    match fin with
+    | .drop => { final := head ++ tail, dropped := r.2, escaped := yielded r.1,
+                 exit := if r.2.any bombs.contains then .panic true else .ret r.1, rest := [] }
+    | .keepRest => { final := head ++ r.2 ++ tail, escaped := yielded r.1, exit := .ret r.1, rest := [] }
+
+/-- `into_iter()`, pulls, drop of the iterator: the owner is gone, nothing remains -/
+def intoIterSpec (bombs : List Id) (xs : List Id) (script : List Pull) : SpecOut (List (Option Id)) :=
+  let r := pullsSpec xs script
+  { final := [], dropped := r.2, escaped := yielded r.1,
+    exit := if r.2.any bombs.contains then .panic true else .ret r.1, rest := [] }
+
+/-- one `ExtractIf::next()`: scan the unscanned elements until one is extracted (`some (some x)`),
+    the end is reached (`some none`) or the predicate panics (`none`) -/
+def scanSpec (kept : List Id) : List Id → List Outcome → List Id × List Id × Option (Option Id) × List Outcome
+  | [], o => (kept, [], some none, o)
+  | x :: rest, [] => (kept, x :: rest, none, [])
+  | x :: rest, .panic :: o => (kept, x :: rest, none, o)
+  | x :: rest, .ret b :: o =>
+    if b ≠ 0 then (kept, rest, some (some x), o) else scanSpec (kept ++ [x]) rest o
+
+/-- `calls` × `next()` (stopping at the end or at a panic): retained prefix, unscanned rest, whether
+    the predicate panicked, the extracted ids, the oracle left -/
+def extractRun : (calls : Nat) → (kept rest : List Id) → List Outcome → List Id × List Id × Bool × List Id × List Outcome
+  | 0, kept, rest, o => (kept, rest, false, [], o)
+  | c + 1, kept, rest, o =>
+    match scanSpec kept rest o with
+    | (kept', rest', none, o') => (kept', rest', true, [], o')
+    | (kept', rest', some none, o') => (kept', rest', false, [], o')
+    | (kept', rest', some (some x), o') =>
+      let r := extractRun c kept' rest' o'
+      (r.1, r.2.1, r.2.2.1, x :: r.2.2.2.1, r.2.2.2.2)
+
+/-- `extract_if(pred)`, `calls` × `next()`, then the iterator is dropped: whatever was not extracted
+    stays, in order -/
+def extractSpec (calls : Nat) (xs : List Id) (o : List Outcome) : SpecOut (List Id) :=
+  let r := extractRun calls [] xs o
+  { final := r.1 ++ r.2.1, escaped := r.2.2.2.1,
+    exit := if r.2.2.1 then .panic false else .ret r.2.2.2.1, rest := r.2.2.2.2 }
+
+/-- `map_in_place(f)`: every element is moved into `f`; if `f` panics the unread elements and the
+    results produced so far are dropped and the owner is gone -/
+def mapSpec (done : List Id) : List Id → List Outcome → SpecOut Unit
+  | [], o => { final := done, exit := .ret (), rest := o }
+  | x :: rest, [] => { final := [], dropped := rest ++ done, escaped := [x], exit := .panic false, rest := [] }
+  | x :: rest, .panic :: o => { final := [], dropped := rest ++ done, escaped := [x], exit := .panic false, rest := o }
+  | x :: rest, .ret id :: o =>
+    let r := mapSpec (done ++ [id]) rest o
+    { r with escaped := x :: r.escaped }
+
+/-- ids produced by the closure of `map_in_place` -/
+def mapIns : List Id → List Outcome → List Id
+  | [], _ => []
+  | _ :: _, [] => []
+  | _ :: _, .panic :: _ => []
+  | _ :: rest, .ret id :: o => id :: mapIns rest o
+
+/-- `append(other)` -/
+def appendSpec (room : Bool) (xs ys : List Id) : SpecOut Unit :=
+  if room then { final := xs ++ ys, exit := .ret (), rest := [] }
+  else { final := xs, dropped := ys, exit := .panic false, rest := [] }
 
 end Coll
